@@ -452,11 +452,31 @@ pub open spec fn reweight_outcome<T: Eq + PartialOrd + Send + Sync, A: Clone>(g:
     nfne_rel(node_names_of(g.nodes_vec@), Seq::new(g.all_edges_seq().len(), |i: int| spec_reweighted(g.all_edges_seq()[i], w)), g.specs, r)
 }
 
+// the edge collapse_edges builds for one entry: endpoints of the key, weight = float sum of the list's weights (uninterpreted fold)
+pub uninterp spec fn wsum_list<T: PartialOrd + Send, A>(list: Seq<Arc<Edge<T, A>>>) -> f64;
+pub open spec fn collapsed_edge<T: PartialOrd + Send, A>(k: (T, T), list: Seq<Arc<Edge<T, A>>>) -> Edge<T, A> {
+    Edge { u: k.0, v: k.1, attributes: None, weight: wsum_list(list) }
+}
 // what to_single_edges() builds: the same nodes, one collapsed edge per key of the name-keyed store (`keys` = the keys in iteration order)
 pub open spec fn collapse_outcome<T: Eq + PartialOrd + Send + Sync, A: Clone>(g: Graph<T, A>, keys: Seq<(T, T)>, r: Result<Graph<T, A>, Error>) -> bool {
     &&& keys.no_duplicates() && (forall|k: (T, T)| g.edges@.contains_key(k) <==> #[trigger] keys.contains(k))
     &&& nfne_rel(node_names_of(g.nodes_vec@), Seq::new(keys.len(), |i: int| collapsed_edge(keys[i], g.edges@[keys[i]]@)),
                  GraphSpecs { multi_edges: false, ..g.specs }, r)
+}
+
+pub open spec fn merged_rows(a: Seq<AdjacentNode>, b: Seq<AdjacentNode>, m: Seq<&AdjacentNode>) -> bool {
+    &&& forall|i: int, j: int| 0 <= i < j < m.len() ==> (#[trigger] m[i]).node_index < (#[trigger] m[j]).node_index
+    &&& forall|i: int| 0 <= i < m.len() ==> exists|k: int| (0 <= k < a.len() && a[k].node_index == (#[trigger] m[i]).node_index) || (0 <= k < b.len() && b[k].node_index == m[i].node_index)
+    &&& forall|k: int| 0 <= k < a.len() ==> exists|i: int| 0 <= i < m.len() && (#[trigger] m[i]).node_index == (#[trigger] a[k]).node_index
+    &&& forall|k: int| 0 <= k < b.len() ==> exists|i: int| 0 <= i < m.len() && (#[trigger] m[i]).node_index == (#[trigger] b[k]).node_index
+}
+// get_neighbor_nodes: `m` merges the predecessor row and the successor row of position i (merged_rows) and `out` holds the nodes at
+// those positions, in the same order
+pub open spec fn neighbors_listed<T: Eq + PartialOrd + Send + Sync, A: Clone>(g: Graph<T, A>, i: usize, m: Seq<&AdjacentNode>, out: Seq<&Arc<Node<T, A>>>) -> bool {
+    &&& i < g.n()
+    &&& merged_rows(g.predecessors_vec@[i as int]@, g.successors_vec@[i as int]@, m)
+    &&& out.len() == m.len()
+    &&& forall|k: int| 0 <= k < m.len() ==> (#[trigger] m[k]).node_index < g.n() && **out[k] == *g.nodes_vec@[m[k].node_index as int]
 }
 
 // what reverse() returns: a graph rebuilt (new_from_nodes_and_edges) from the same nodes and every edge flipped
